@@ -61,12 +61,23 @@ fn result<S: AsRef<str>>(
 /// FluentResource::try_new keeps the recovered tree next to the errors
 fn try_new(t: &str) -> Sexp {
     use fluent_bundle::FluentResource;
-    let (tag, res, nerr) = match FluentResource::try_new(t.to_string()) {
-        Ok(r) => ("ok", r, 0),
-        Err((r, e)) => ("err", r, e.len()),
+    let (tag, res, errs) = match FluentResource::try_new(t.to_string()) {
+        Ok(r) => ("ok", r, vec![]),
+        Err((r, e)) => ("err", r, e),
     };
+    let nerr = errs.len();
     let n = res.entries().count();
-    let same = (0..n).all(|i| res.get_entry(i).is_some()) && res.get_entry(n).is_none() && res.source() == t;
+    // the resource is the runtime parser's result on exactly the text it owns: same entries, same errors (positions and
+    // slices are offsets into source()), so that Junk and error ranges can be read against source()
+    let (body2, errs2) = match parser::parse_runtime(t) {
+        Ok(r) => (r, vec![]),
+        Err((r, e)) => (r, e),
+    };
+    let same = (0..n).all(|i| res.get_entry(i).is_some())
+        && res.get_entry(n).is_none()
+        && res.source() == t
+        && res.entries().eq(body2.body.iter())
+        && errs == errs2;
     list(vec![sym("try_new"), sym(tag), int(n as i64), int(nerr as i64), sbool(same)])
 }
 
